@@ -1,5 +1,5 @@
 (** C10 — correspondence ([agree]) and the spec-side predicate on the implementation's output ([holds]). *)
-From V Require Import Base.Util Gql.Ast Writer.Wop Ts.TsType C10.Model.
+From V Require Import Base.Util Gql.Ast Writer.Wop Ts.TsType Ts.TsDen C10.Model C10.Spec C10.Domain.
 
 (** result of one run of a Rust printer: the coalesced recorded operations, the returned error,
     or the caught panic (site numbered as in Model.res) *)
@@ -31,7 +31,38 @@ Definition agree (c : case) : bool :=
   | CJsdoc items => forallb (fun i => wops_eqb (print_description (fst i)) (snd i)) items
   end.
 
-Definition holds (c : case) : bool := true.
+(** ** the semantic reading, evaluated on a finite value domain *)
+Definition DEN_FUEL : nat := 60.
+Definition DOM_DEPTH : nat := 3.
+
+Definition obool_eqb (a : option bool) (b : bool) : bool :=
+  match a with Some x => Bool.eqb x b | None => false end.
+
+(** every alias of namespace [t] denotes [Ref_t] on the candidates of its type *)
+Definition namespace_exact (o : sopts) (doc : tsdoc) (t : target) (ms : list (option member)) : bool :=
+  forallb (fun td =>
+    let T := tname td in
+    if applicable doc t T then
+      match alias_of ms T with
+      | None => false
+      | Some body =>
+          forallb (fun v => obool_eqb (has_type_b (ns_env ms) DEN_FUEL body v) (Ref o doc t T v))
+                  (vals o doc t DOM_DEPTH (NNamed T))
+      end
+    else match alias_of ms T with None => true | Some _ => false end) (typedefs doc).
+
+Definition model_exact (o : sopts) (doc : tsdoc) : bool :=
+  match schema_decls o doc with
+  | Ok nss => forallb (fun t => namespace_exact o doc t (namespace_of nss t)) all_targets
+  | _ => true
+  end.
+
+Definition holds (c : case) : bool :=
+  match c with
+  | CDoc checked doc sruns _ =>
+      forallb (fun r => if wf_schema (fst r) doc then model_exact (fst r) doc else true) sruns
+  | _ => true
+  end.
 
 (** diagnosis aid (not used by the check): first differing operation of each run *)
 Fixpoint first_diff (a b : list wop) : option (option wop * option wop) :=
